@@ -23,6 +23,25 @@ CHECKS = {
          'TLC-generated histories replayed on real code with value-stability oracle from the spec', '5 C05'),
  'C08': ('exploration', 'export -> import -> export compared as canonical triangle multisets (bit-exact properties, IDs, flags, transforms) for every handle of '
          'TLC-generated programs', 'tangents / 32-bit / OBJ paths not covered yet', 'TLC behaviour generation + replay with round-trip oracle', '5 C08'),
+ 'C09': ('model_checking', 'MeshGL.tla: abstract MeshGL as a record of field classes, the ingest validation ladder transcribed, totality and '
+         '"every out-of-bounds class is rejected" checked by TLC over all inputs with <= 2 malformed fields; each enumerated input is concretised '
+         '(64/32-bit), constructed under ASan/UBSan and pushed through ~45 consuming operations (status must stay non-NoError, results empty; '
+         'NoError results must be closed 2-manifolds with finite numbers).',
+         'AddressSanitizer/UBSan are the memory-safety witnesses; polygon/point-set/OBJ/numeric-argument classes are covered by other checks',
+         'TLC-enumerated abstract inputs (fault classes) executed on the real code under sanitizers', '5 C09'),
+ 'C13': ('model_checking', 'ParScan/ParReduce.tla: the oneTBB scan/reduce protocols over transcriptions of ScanBody, CopyIfScanBody, SortedRange, all protocol '
+         'instances enumerated and checked equal to the sequential algorithm (regression variants refuted); UnionFind/HashTable.tla: one step per '
+         'atomic access, all interleavings of 2-3 threads checked. Every protocol instance is executed call for call on the real bodies, every '
+         'context-switch-bounded schedule is replayed on the real containers under a deterministic scheduler, and whole templates run against std '
+         'for lengths around the thresholds.',
+         'scan protocol = documented Body contract (one legal two-pass scheme), not TBB\'s task graph; whole-template TBB schedules are sampled',
+         'TLC model checking of protocols/interleavings + replay of every enumerated instance/schedule on the real code', '5 C13'),
+ 'C15': ('model_checking', 'Ctx.tla: the cancellation/progress protocol with Cancel enabled between any two steps (AllOrNothing, ProgressBounded/Monotone, '
+         'CompletedMeansOne, ShortCircuit, CancelSticky, termination; the variant without the post-helper check is refuted). The probe in '
+         'IsCancelled injects Cancel at the k-th check for every k of every case (Expr.tla expressions with shared/held/pre-evaluated parts, and the '
+         'eager context-observed operations); every run is judged and its recorded trace validated by TLC against Ctx_Trace.tla.',
+         'probe counts checks on one registered context (single-threaded injection at every check site); eager ops on fixed small inputs',
+         'TLC model checking + fault injection at every cancellation check + TLC trace validation', '5 C15'),
  'C18': ('exploration', 'measurement queries of every live handle of TLC-generated lattice programs compared with Lattice.tla (cells, exposed faces, '
          'extent, slices, shadow, components) and with sums over the export', 'lattice regime; MinGap/general position not covered yet', T_REPLAY, '5 C18'),
 }
